@@ -140,8 +140,8 @@ Proof.
 Qed.
 
 Lemma handlers_disciplined h :
-  (forall u v, h <> HU2fSignRespOld u v) -> disciplined (handler h) = true.
-Proof. intros H. destruct h; try reflexivity. exfalso. eapply H; reflexivity. Qed.
+  (forall u v, h <> HU2fSignRespOld u v) -> h <> HUnsealSplit -> h <> HReadKeys -> disciplined (handler h) = true.
+Proof. intros H H1 H2. destruct h; try reflexivity; try congruence; try (exfalso; eapply H; reflexivity). Qed.
 
 (* ------------------------------------------------------------------ (2) no torn profile *)
 Lemma get_In u p d : get u d = Some p -> In (u, p) d.
